@@ -27,6 +27,7 @@ func main() {
 	maxSteps := flag.Int64("maxsteps", 3000000, "SSA step bound per path")
 	budget := flag.Int("budget", 0, "wall-clock budget per entry in seconds (0 = none)")
 	tier := flag.Int("tier", 0, "0 quick / 1 thorough (read by harnesses through vTier)")
+	noMerge := flag.Bool("nomerge", false, "disable if-conversion of pure diamonds")
 	out := flag.String("out", "", "result JSON file")
 	dump := flag.String("dump", "", "dump SSA of function and exit")
 	flag.Parse()
@@ -92,7 +93,7 @@ func main() {
 		}
 		ex := &Explorer{prog: prog, mainPkg: mainPkg, entry: e, entryFn: fn, errorStringPtr: errStrPtr, timeType: timeType,
 			maxSteps: *maxSteps, maxDepth: 200, maxThreads: 8, maxAlloc: 1 << 16, maxConcretize: 300, defaultUnwind: *unwind,
-			tier: *tier, maxPaths: *maxPaths, solverKind: *solver, solverTimeout: *timeout,
+			tier: *tier, noMerge: *noMerge, maxPaths: *maxPaths, solverKind: *solver, solverTimeout: *timeout,
 			initPkgs: map[string]bool{"io": true, "bufio": true, "bytes": true, "errors": true, "encoding/binary": true, mlPkg: true, "github.com/google/btree": true, "hash/crc32": false, "net": false}}
 		if *budget > 0 {
 			ex.deadline = time.Now().Add(time.Duration(*budget) * time.Second)
